@@ -61,10 +61,21 @@ def corpus():
     return P
 
 
+def extra_corpus(pid):
+    """additional minimised cases dropped into /verif/corpus/<pid>/extra*.json (lists of programs)"""
+    import glob, json
+    out = []
+    for f in sorted(glob.glob(os.path.join(os.path.dirname(os.path.dirname(os.path.abspath(__file__))), "corpus", pid, "extra*.json"))):
+        for p in json.load(open(f)):
+            p.setdefault("kind", "corpus-extra")
+            out.append(p)
+    return out
+
+
 def gen_programs(ctx):
     rng = ctx.rng
     progs = []
-    for p in corpus():
+    for p in corpus() + extra_corpus("C38"):
         progs.append(p)
     # bounded-exhaustive: every op sequence of length L over R replicas (local ops + pairwise syncs)
     plan = [("g", 3, 2), ("pn", 2, 2), ("f", 4, 3), ("l", 3, 3), ("mv", 3, 2), ("s", 3, 2), ("m", 4, 3)]
@@ -306,7 +317,8 @@ def slot_dumps(p, o, upto, slots):
 
 
 THEOREMS = ["C38_gcounter_join", "C38_gcounter_inflation", "C38_pncounter_join", "C38_flag_join",
-            "C38_lww_join_partial", "C38_lww_refuted", "C38_orset_join", "C38_orset_inflation"]
+            "C38_lww_join_partial", "C38_lww_join_reachable", "C38_lww_refuted", "C38_mvregister_join", "C38_orset_join", "C38_orset_inflation",
+            "C38_ormap_join_partial", "C38_ormap_assoc_refuted"]
 
 META = {
     "ready": True,
